@@ -33,6 +33,14 @@ func prop(t *rapid.T) {
 	}
 	nInst := rapid.IntRange(2, 3).Draw(t, "instances")
 	cfgs := cons.Configs()
+	// in half of the cases the events' frames are the ones a generator node assigns with Build (as real nodes
+	// do) instead of the reference's; identical on a correct implementation
+	builtFrames := rapid.Bool().Draw(t, "framesAssignedByBuild")
+	if builtFrames {
+		if err := scen.RebuildWithBuiltFrames(sc, cfgs[rapid.IntRange(0, len(cfgs)-1).Draw(t, "cfgGenerator")]); err != nil {
+			t.Fatalf("%v\n%v", err, scen.DescribeScenario(sc))
+		}
+	}
 	type instState struct {
 		in       *cons.Instance
 		startEp  int // index of the first epoch this instance takes part in
@@ -129,6 +137,9 @@ func prop(t *rapid.T) {
 	}
 	if ordersDiffer {
 		classes = append(classes, "orders_differ")
+	}
+	if builtFrames {
+		classes = append(classes, "frames_assigned_by_build")
 	}
 	st.Case(stats.Hash(scen.DescribeScenario(sc)), totalBlocks >= 2 && ordersDiffer, classes...)
 	st.Class("blocks", int64(totalBlocks))
